@@ -10,6 +10,7 @@ import (
 // function.
 type ctorInfo struct {
 	Call   *ssa.Call
+	Alloc  *ssa.Alloc        // set instead of Call for a composite literal &Context{…}
 	Src    ssa.Value         // the context that is copied (caller's parameter, &BaseContext, …)
 	Prec   ssa.Value         // the new Precision, nil if unknown
 	Consts map[string]string // fields the constructor stores a constant into (rendered as exprOf does)
@@ -23,6 +24,9 @@ func (w *World) ctxCtor(v ssa.Value) *ctorInfo {
 func (w *World) ctxCtorDepth(v ssa.Value, depth int) *ctorInfo {
 	if v == nil || depth > 3 {
 		return nil
+	}
+	if al, isAlloc := basePtr(v).(*ssa.Alloc); isAlloc {
+		return w.ctxLiteral(al)
 	}
 	c, ok := basePtr(v).(*ssa.Call)
 	if !ok {
@@ -101,9 +105,74 @@ func (w *World) ctxCtorDepth(v ssa.Value, depth int) *ctorInfo {
 	return out
 }
 
+// ctxLiteral: al is a Context built by a composite literal whose exponent limits and traps are copied from
+// one context S (MaxExponent: S.MaxExponent, MinExponent: S.MinExponent, Traps: S.Traps): a copy of S with
+// its own Precision and, possibly, Rounding — what WithPrecision plus field stores would have made.
+func (w *World) ctxLiteral(al *ssa.Alloc) *ctorInfo {
+	if al == nil || !isContextPtr(al.Type()) {
+		return nil
+	}
+	f := al.Parent()
+	out := &ctorInfo{Alloc: al, Consts: map[string]string{}}
+	srcs := map[string]ssa.Value{}
+	started := false
+	for _, in := range al.Block().Instrs {
+		if in == ssa.Instruction(al) {
+			started = true
+			continue
+		}
+		if !started {
+			continue
+		}
+		st, ok := in.(*ssa.Store)
+		if !ok {
+			continue
+		}
+		fa, isFA := st.Addr.(*ssa.FieldAddr)
+		if !isFA || fa.X != ssa.Value(al) {
+			continue
+		}
+		field := w.exprOf(f, st.Addr).Name
+		if field == "Precision" {
+			out.Prec = st.Val
+			continue
+		}
+		if _, isK := st.Val.(*ssa.Const); isK {
+			out.Consts[field] = w.exprOf(f, st.Val).String()
+			continue
+		}
+		if ld, isLd := st.Val.(*ssa.UnOp); isLd && ld.Op.String() == "*" {
+			if sfa, isS := ld.X.(*ssa.FieldAddr); isS && w.exprOf(f, ld.X).Name == field {
+				srcs[field] = basePtr(sfa.X)
+				continue
+			}
+		}
+		out.Consts[field] = "" // stored, value neither a constant nor the same field of another context
+	}
+	var src ssa.Value
+	for _, fld := range []string{"MaxExponent", "MinExponent", "Traps"} {
+		sv, ok := srcs[fld]
+		if !ok || (src != nil && sv != src) {
+			return nil
+		}
+		src = sv
+	}
+	out.Src = src
+	return out
+}
+
 // ctorCalls lists the context constructor calls in f.
 func (w *World) ctorCalls(f *ssa.Function) []*ctorInfo {
 	var out []*ctorInfo
+	for _, b := range f.Blocks {
+		for _, in := range b.Instrs {
+			if al, ok := in.(*ssa.Alloc); ok {
+				if ci := w.ctxLiteral(al); ci != nil {
+					out = append(out, ci)
+				}
+			}
+		}
+	}
 	for _, c := range callsIn(f) {
 		call, ok := c.(*ssa.Call)
 		if !ok {
